@@ -226,6 +226,7 @@ def work(ctx, tier):
     # two threads on one policy object with per-class caps, incl. the very first failures a fresh object handles
     tconc.thread_slice(ctx, tier, common.rng_for(ctx, "threads"), ["caps", "identity"], budget=False, breaker=False, first_use=True, nprog=2)
     common.reconfig_slice(ctx, tier, common.rng_for(ctx, "reconfig"), lambda sc, e: _one(ctx, sc, e, stats))
+    common.default_limits_slice(ctx, lambda sc, e: _one(ctx, sc, e, stats))
     common.long_run_slice(ctx, tier, common.rng_for(ctx, "long"), lambda sc, e: _one(ctx, sc, e, stats), horizons=(40, 90, 200))
     if tier != "quick":
         common.repo_suite_under_monitors(ctx, "caps")
